@@ -605,6 +605,22 @@ pub fn judge(obj: &dyn Objective, theta: &[f64], tol: f64) -> Judged {
     Judged { verdict: Verdict::NotStationary, gnorm: gn, bound, f, gap: None }
 }
 
+/// condition number of the harness Hessian at `t` (largest / smallest eigenvalue magnitude); inf when singular or not finite
+pub fn hessian_condition(obj: &dyn Objective, t: &[f64]) -> f64 {
+    let h = obj.hess(t);
+    if h.iter().flatten().any(|v| !v.is_finite()) {
+        return f64::INFINITY;
+    }
+    let (ev, _) = num::jacobi_eigh(&h);
+    let mx = ev.iter().fold(0.0f64, |a, b| a.max(b.abs()));
+    let mn = ev.iter().fold(f64::INFINITY, |a, b| a.min(b.abs()));
+    if mn > 0.0 && mx.is_finite() {
+        mx / mn
+    } else {
+        f64::INFINITY
+    }
+}
+
 // ------------------------------------------------------------------------------------------------
 // finite-difference self test of the analytic derivatives above
 
